@@ -311,22 +311,37 @@ def c01_v(ctx):
         raise Anchor("C01-V", "call of finalize_file in finalize_receive")
     # provenance of the compared value: verify_checksum compares FileChecksum::checksum(handle, meta.checksum_type) with its argument
     g = ctx.one("C01-V", "RecvTransaction::verify_checksum")
-    eb = ExprBuilder(ctx.prog, g, user_stop=True)
+    ebg = ExprBuilder(ctx.prog, g)
     found = False
+    param_idx = None
+    params = {vn: l for vn, l, pj in g.var_places if not pj and 2 <= l <= g.arg_count}
     for b in g.live_blocks():
         for s in g.blocks[b]["stmts"]:
             if s["k"] == "assign" and s["rv"]["k"] == "binop" and s["rv"]["op"] == "Eq":
-                e = ExprBuilder(ctx.prog, g).rvalue(s["rv"])
-                txt = expr_str(e)
-                if "FileChecksum>::checksum(" in txt and "checksum)" in txt:
+                e = simp(ebg.rvalue(s["rv"]))
+                sides = [expr_str(e[2]), expr_str(e[3])]
+                comp = [x for x in sides if "FileChecksum>::checksum(" in x]
+                other = [x for x in sides if "FileChecksum>::checksum(" not in x]
+                if len(comp) != 1 or len(other) != 1:
+                    continue
+                o = other[0]
+                if o in params:
+                    param_idx = params[o] - 1
                     found = True
-                    yield ok("C01-V", "verify_checksum:compare", at(g, s["span"]["line"]), txt[:300])
+                    yield ok("C01-V", "verify_checksum:compare", at(g, s["span"]["line"]), "%s == parameter `%s`" % (comp[0][:200], o))
+                elif re.match(r"^self\.checksum(@Some\.0)?$", o):
+                    found = True
+                    yield ok("C01-V", "verify_checksum:compare", at(g, s["span"]["line"]), "%s == %s" % (comp[0][:200], o))
     if not found:
-        yield bad("C01-V", "verify_checksum:compare", at(g), "verify_checksum does not compare FileChecksum::checksum(staged file) with the expected checksum argument")
+        yield bad("C01-V", "verify_checksum:compare", at(g), "verify_checksum does not compare FileChecksum::checksum(staged file) with the expected checksum (its parameter or self.checksum)")
     # the argument at the call site originates from self.checksum, written only from the EOF PDU
     for f2, b, t, d, r in call_sites([f], ends("RecvTransaction::verify_checksum"), ctx.prog):
+        if param_idx is None:
+            if found:
+                yield ok("C01-V", "verify_checksum:arg", at(f, t["span"]["line"]), "the expected value is read from self.checksum inside verify_checksum")
+            continue
         e = ExprBuilder(ctx.prog, f).call(b, t)
-        a = expr_str(e[3][1])
+        a = expr_str(e[3][param_idx]) if len(e[3]) > param_idx else "?"
         if "self.checksum" in a:
             yield ok("C01-V", "verify_checksum:arg", at(f, t["span"]["line"]), a[:200])
         else:
